@@ -6,6 +6,8 @@ pub mod c17;
 pub mod c19;
 pub mod c13;
 pub mod c04;
+pub mod c03;
+pub mod c12;
 pub mod c18;
 
 pub fn lookup(id: &str) -> Option<&'static dyn Prop> {
@@ -17,6 +19,8 @@ pub fn lookup(id: &str) -> Option<&'static dyn Prop> {
         "C19" => Some(&c19::C19),
         "C13" => Some(&c13::C13),
         "C04" => Some(&c04::C04),
+        "C03" => Some(&c03::C03),
+        "C12" => Some(&c12::C12),
         "C18" => Some(&c18::C18),
         _ => None,
     }
